@@ -13,7 +13,7 @@ LEVEL_TEXT = ("TLC checks the explicit-time model Runner (send phase, done, dela
               "probe; TLC validates the measured times against the same clauses (lower bound exact, upper bound 3 s) and the same runs "
               "against the pipeline specification.")
 NOTE = ("Trusted: TLC; monotonic clock; LastProbe is logged before the sender can signal completion and CtxCancelled after the cancellation, so the "
-        "lower bound cannot produce a false alarm; 'reported' is demanded for replies delivered in the first half of delays >= 300 ms. The per-chunk "
+        "lower bound cannot produce a false alarm; 'reported' is demanded for replies delivered in the first half of delays >= 600 ms. The per-chunk "
         "behaviour of chunked port scans (startPortScanEngine on a real socket) is covered by the end-to-end tier when it is available.")
 TECHNIQUE = "TLA+ model checking (TLC, explicit time) + validation of measured traces of the real runner against the spec"
 DESIGN_REF = "DESIGN.md section 5, C16"
@@ -47,7 +47,7 @@ def run(ctx):
     if ctx.replay:
         return vf.replay_trace(ctx, ctx.replay)
     quick = ctx.tier == "quick"
-    ctx.cov["rule"] = ("model: every timing of send/done/timer/cancel/reply/log/return up to the horizon; runs: exit delays 120/300/450/700 ms, "
+    ctx.cov["rule"] = ("model: every timing of send/done/timer/cancel/reply/log/return up to the horizon; runs: exit delays 120/450/600/900 ms, "
                        "1..50 probes, send phases shorter and longer than the delay, replies at 0.1/0.5/1.6 of the delay; distinct = runs")
     ctx.tlc_mc("Runner", "MC_Runner", workers=8, timeout=900)
     ctx.tlc_mc("Runner", "MC_Runner_bug", workers=4, timeout=600, expect_violation="NoEarlyCancel")
@@ -59,4 +59,4 @@ def run(ctx):
     for r0 in vf.split_runs(vf.read_ndjson(tb))[:4]:
         ctx.sample(r0)
     ctx.assumptions += ["upper bound on exit: 3 s after the run context was observed cancelled",
-                        "late-reply clause only for replies delivered at <= 0.5 of a delay >= 300 ms (150 ms of slack for the result path)"]
+                        "late-reply clause only for replies delivered at <= 0.5 of a delay >= 600 ms (>= 300 ms of slack for the result path)"]
